@@ -54,6 +54,11 @@ func c10Cases(c *Ctx) []c10Case {
 		add(sCfg{"NONE", "NONE", 4096, 1, 64, 0, false}, "random", n)
 		add(sCfg{"LZ", "ANS0", 4096, 1, 32, 0, false}, "text", n)
 	}
+	// many distinct contexts + long repeats: collisions in the hash tables of the match finders are part of the format
+	for i, t := range []string{"LZP", "LZ", "LZX", "ROLZ", "ROLZX", "LZP+LZ"} {
+		add(sCfg{t, "NONE", 65536, 1, []uint{32, 0, 64}[i%3], 0, false}, "rnd+repeats", 65536)
+		add(sCfg{t, "HUFFMAN", 262144, 2, 32, 0, false}, "rnd+repeats", 200000+i)
+	}
 	for i := 0; i < 110*c.Scale; i++ {
 		cfg := randCfg(r, false)
 		shape := dataShapes[r.Intn(len(dataShapes))]
@@ -92,6 +97,22 @@ func c10Data(k c10Case) []byte {
 			}
 			b = append(b, w...)
 			b = append(b, ' ')
+		}
+		return b[:k.size]
+	}
+	if k.shape == "rnd+repeats" {
+		r := NewRng(k.seed)
+		b := make([]byte, 0, k.size)
+		for len(b) < k.size*3/4 {
+			b = append(b, byte(r.U64()))
+		}
+		for len(b) < k.size {
+			from := r.Intn(len(b) - 600)
+			n := r.Range(8, 512)
+			b = append(b, b[from:from+n]...)
+			for j := r.Intn(40); j > 0; j-- {
+				b = append(b, byte(r.U64()))
+			}
 		}
 		return b[:k.size]
 	}
